@@ -2069,6 +2069,17 @@ def call(I, fr, name, fname, k, args, depth):
     if name.endswith("string::String::clear"):
         deref(I, args[0]).b[:] = []
         return []
+    if name.endswith("str::<impl str>::split_at") or name.endswith("slice::<impl [T]>::split_at") or name.endswith("str::<impl str>::split_at_checked") or name.endswith("slice::<impl [T]>::split_at_checked"):
+        a = as_slice(I, args[0])
+        m_ = args[1]
+        checked = name.endswith("_checked")
+        bad_ = m_ > a.len or ("str" in name and 0 < m_ < a.len and (a.heap[a.start + m_] & 0xC0) == 0x80)
+        if bad_:
+            if checked:
+                return NONE()
+            raise Panic("split_at out of bounds / not on a char boundary")
+        pair = [Slice(a.heap, a.start, m_, a.esz), Slice(a.heap, a.start + m_, a.len - m_, a.esz)]
+        return some(pair) if checked else pair
     if name.endswith("str::<impl str>::repeat"):
         a = as_slice(I, args[0])
         if args[1] * a.len > 1 << 24:
